@@ -557,8 +557,11 @@ func listObligations(e *Engine, prop string) []string {
 				continue
 			}
 			switch o.Kind {
-			case "ensures", "trace", "lockinv", "invariant", "chaninv", "atomic", "explored", "structure":
-				seen[o.Name] = true
+			case "ensures", "trace", "invariant", "atomic", "explored", "structure":
+				// only names that do not depend on instruction ordinals
+				if !strings.Contains(o.Name, "@") && !strings.Contains(o.Name, "#") {
+					seen[o.Name] = true
+				}
 			}
 		}
 	}
